@@ -205,6 +205,20 @@ theorem reqFoldOk_foldReq (as : List ReqAct) : reqFoldOk as (foldReq as) = true 
       · simp
     rw [hN]; simp [hE, hU, hM, ← hN]
 
+/-- The rule from its ingredients (no early response among `ins`). -/
+theorem reqFoldOk_of (ins : List ReqAct) (out : ReqAct) (hfe : firstEarly ins = none)
+    (hE : out.isEarly = false) (hN : out.isNoop = ins.all (·.isNoop))
+    (hH : ∀ k, out.hdrs.lookup k = lastWriter k (ins.map (·.hdrs))) : reqFoldOk ins out = true := by
+  unfold reqFoldOk
+  rw [hfe]
+  have hU := hdrsUnion_of_lookup _ _ hH
+  have hM : (out.isNoop || out.isMod) = true := by
+    cases hn : out.isNoop
+    · simp [isMod_of_not _ hE hn]
+    · simp
+  rw [hN] at hM
+  simp only [hE, hU, hM, hN, Bool.not_false, Bool.true_and, Bool.and_true, beq_self_eq_true]
+
 /-! ### reading a header dump back -/
 
 theorem linesOf_ne_nil (cs : List Char) : linesOf cs ≠ [] := by
@@ -280,7 +294,14 @@ theorem contains_false_not_mem (l : List Char) (c : Char) (h : l.contains c = fa
   have : l.contains c = true := List.contains_iff_mem.mpr hm
   rw [h] at this; cases this
 
-theorem parse_dumpHeaders (h : Hdrs) (hs : hdrsSafe h = true) : parseHeaders (dumpHeaders h) = h := by
+theorem not_mem_of_all_tchar (l : List Char) (c : Char) (hc : isTchar c = false) (h : l.all isTchar = true) :
+    c ∉ l := by
+  intro hm
+  have := List.all_eq_true.mp h c hm
+  rw [hc] at this; cases this
+
+/-- What is written for the (sanitized) header map reads back as exactly that map — for EVERY map. -/
+theorem parse_dumpHeaders (h : Hdrs) : parseHeaders (dumpHeaders h) = sanitizeHdrs h := by
   unfold parseHeaders dumpHeaders
   rw [String.toList_ofList, parse_dumpChars]
   · rw [List.map_map]
@@ -290,43 +311,135 @@ theorem parse_dumpHeaders (h : Hdrs) (hs : hdrsSafe h = true) : parseHeaders (du
     rw [this, List.map_id]
   · intro kv hkv
     obtain ⟨p, hp, rfl⟩ := List.mem_map.mp hkv
-    unfold hdrsSafe at hs
-    rw [List.all_eq_true] at hs
-    have := hs p hp
+    unfold sanitizeHdrs at hp
+    obtain ⟨q, hq, rfl⟩ := List.mem_map.mp hp
+    have hv : validName q.1 = true := by simpa using (List.mem_filter.mp hq).2
+    unfold validName at hv
+    simp only [Bool.and_eq_true] at hv
+    refine ⟨not_mem_of_all_tchar _ ':' (by decide) hv.2, not_mem_of_all_tchar _ '\n' (by decide) hv.2, ?_⟩
+    simp only [stripCRLF, String.toList_ofList]
+    intro hm
+    have := (List.mem_filter.mp hm).2
+    simp at this
+
+/-! ### sanitizing read through `lookup` -/
+
+theorem lookup_sanitize (h : Hdrs) (k : String) :
+    (sanitizeHdrs h).lookup k = if validName k then (h.lookup k).map stripCRLF else none := by
+  unfold sanitizeHdrs
+  induction h with
+  | nil => simp
+  | cons p rest ih =>
+    obtain ⟨pk, pv⟩ := p
+    by_cases hk : k = pk
+    · subst hk
+      by_cases hv : validName k = true
+      · simp [List.filter, hv]
+      · have hv' : validName k = false := by simpa using hv
+        simp only [List.filter, hv']
+        rw [ih]; simp [hv']
+    · have hne : (k == pk) = false := by simpa using hk
+      by_cases hv : validName pk = true
+      · simp only [List.filter, hv, List.map_cons, List.lookup_cons, hne]
+        rw [ih]
+      · have hv' : validName pk = false := by simpa using hv
+        simp only [List.filter, hv', List.lookup_cons, hne]
+        rw [ih]
+
+theorem lastWriter_sanitize (k : String) (hs : List Hdrs) :
+    lastWriter k (hs.map sanitizeHdrs) = if validName k then (lastWriter k hs).map stripCRLF else none := by
+  induction hs with
+  | nil => simp [lastWriter]
+  | cons h rest ih =>
+    rw [List.map_cons, lastWriter_cons, lastWriter_cons, ih, lookup_sanitize]
+    by_cases hv : validName k = true
+    · simp only [hv, if_true]
+      cases lastWriter k rest <;> simp
+    · have hv' : validName k = false := by simpa using hv
+      simp [hv']
+
+theorem sanitize_of_valid (h : Hdrs) (hv : hdrsValid h = true) : sanitizeHdrs h = h := by
+  unfold hdrsValid at hv
+  rw [List.all_eq_true] at hv
+  unfold sanitizeHdrs
+  have hf : h.filter (fun kv => validName kv.1) = h := by
+    rw [List.filter_eq_self]
+    intro p hp
+    have := hv p hp
+    simp only [Bool.and_eq_true] at this
+    exact this.1.1
+  rw [hf]
+  have : ∀ p ∈ h, (fun kv : String × String => (kv.1, stripCRLF kv.2)) p = p := by
+    intro p hp
+    have := hv p hp
     simp only [Bool.and_eq_true, Bool.not_eq_true'] at this
-    exact ⟨contains_false_not_mem _ _ this.1.1, contains_false_not_mem _ _ this.1.2,
-      contains_false_not_mem _ _ this.2⟩
+    have hfil : (p.2.toList.filter fun c => c != '\r' && c != '\n') = p.2.toList := by
+      rw [List.filter_eq_self]
+      intro c hc
+      have h1 : c ≠ '\r' := fun e => contains_false_not_mem _ _ this.1.2 (e ▸ hc)
+      have h2 : c ≠ '\n' := fun e => contains_false_not_mem _ _ this.2 (e ▸ hc)
+      simp [h1, h2]
+    show (p.1, stripCRLF p.2) = p
+    unfold stripCRLF
+    rw [hfil, String.ofList_toList]
+  calc h.map _ = h.map id := List.map_congr_left this
+    _ = h := List.map_id h
+
+theorem ReqAct.sanitized_hdrs (a : ReqAct) : a.sanitized.hdrs = sanitizeHdrs a.hdrs := by
+  cases a <;> simp [ReqAct.sanitized, ReqAct.hdrs, sanitizeHdrs]
+
+theorem RespAct.sanitized_hdrs (a : RespAct) : a.sanitized.hdrs = sanitizeHdrs a.hdrs := by
+  cases a <;> simp [RespAct.sanitized, RespAct.hdrs, sanitizeHdrs]
+
+theorem ReqAct.sanitized_isEarly (a : ReqAct) : a.sanitized.isEarly = a.isEarly := by
+  cases a <;> rfl
+theorem ReqAct.sanitized_isNoop (a : ReqAct) : a.sanitized.isNoop = a.isNoop := by
+  cases a <;> rfl
+theorem ReqAct.sanitized_isMod (a : ReqAct) : a.sanitized.isMod = a.isMod := by
+  cases a <;> rfl
+theorem RespAct.sanitized_isNoop (a : RespAct) : a.sanitized.isNoop = a.isNoop := by
+  cases a <;> rfl
+theorem RespAct.sanitized_isMod (a : RespAct) : a.sanitized.isMod = a.isMod := by
+  cases a <;> rfl
+theorem RespAct.sanitized_isRetry (a : RespAct) : a.sanitized.isRetry = a.isRetry := by
+  cases a <;> rfl
+
+theorem ReqAct.sanitized_of_valid (a : ReqAct) (hv : hdrsValid a.hdrs = true) : a.sanitized = a := by
+  cases a <;> simp_all [ReqAct.sanitized, ReqAct.hdrs, sanitize_of_valid]
+
+theorem RespAct.sanitized_of_valid (a : RespAct) (hv : hdrsValid a.hdrs = true) : a.sanitized = a := by
+  cases a <;> simp_all [RespAct.sanitized, RespAct.hdrs, sanitize_of_valid]
+
+theorem firstEarly_map_sanitized (as : List ReqAct) :
+    firstEarly (as.map (·.sanitized)) = (firstEarly as).map (·.sanitized) := by
+  induction as with
+  | nil => rfl
+  | cons x xs ih =>
+    simp only [List.map_cons, firstEarly, ReqAct.sanitized_isEarly]
+    by_cases hx : x.isEarly = true
+    · simp [hx]
+    · simp [hx, ih]
 
 /-! ### decoding the encoding -/
 
-theorem decodeReq_encodeReq (a : ReqAct) (hs : hdrsSafe a.hdrs = true) :
-    decodeReq (encodeReq a) = some a.eraseRm := by
+theorem decodeReq_encodeReq (a : ReqAct) : decodeReq (encodeReq a) = some a.sanitized.eraseRm := by
   cases a with
-  | noop => simp [encodeReq, decodeReq, ReqAct.eraseRm]
+  | noop => simp [encodeReq, decodeReq, ReqAct.eraseRm, ReqAct.sanitized]
   | early s b h =>
-    simp only [ReqAct.hdrs] at hs
-    simp [encodeReq, decodeReq, getVar, ReqAct.eraseRm, parse_dumpHeaders h hs]
+    simp [encodeReq, decodeReq, getVar, ReqAct.eraseRm, ReqAct.sanitized, parse_dumpHeaders h]
   | modHdr h =>
-    simp only [ReqAct.hdrs] at hs
-    simp [encodeReq, decodeReq, getVar, ReqAct.eraseRm, parse_dumpHeaders h hs]
+    simp [encodeReq, decodeReq, getVar, ReqAct.eraseRm, ReqAct.sanitized, parse_dumpHeaders h]
   | genReq h rm b =>
-    simp only [ReqAct.hdrs] at hs
-    simp [encodeReq, decodeReq, getVar, ReqAct.eraseRm, parse_dumpHeaders h hs]
+    simp [encodeReq, decodeReq, getVar, ReqAct.eraseRm, ReqAct.sanitized, parse_dumpHeaders h]
   | modReq h host path q b =>
-    simp only [ReqAct.hdrs] at hs
     by_cases h1 : path = "" <;> by_cases h2 : q = "" <;> by_cases h3 : host = "" <;> by_cases h4 : b = "" <;>
-      simp [encodeReq, decodeReq, getVar, getText, ReqAct.eraseRm, parse_dumpHeaders h hs, h1, h2, h3, h4]
+      simp [encodeReq, decodeReq, getVar, getText, ReqAct.eraseRm, ReqAct.sanitized, parse_dumpHeaders h, h1, h2, h3, h4]
 
-theorem decodeResp_encodeResp (a : RespAct) (hs : hdrsSafe a.hdrs = true) :
-    decodeResp (encodeResp a) = some a := by
+theorem decodeResp_encodeResp (a : RespAct) : decodeResp (encodeResp a) = some a.sanitized := by
   cases a with
-  | noop => simp [encodeResp, decodeResp]
-  | modResp h b s =>
-    simp only [RespAct.hdrs] at hs
-    simp [encodeResp, decodeResp, getVar, parse_dumpHeaders h hs]
-  | retry h =>
-    simp only [RespAct.hdrs] at hs
-    simp [encodeResp, decodeResp, getVar, parse_dumpHeaders h hs]
+  | noop => simp [encodeResp, decodeResp, RespAct.sanitized]
+  | modResp h b s => simp [encodeResp, decodeResp, getVar, RespAct.sanitized, parse_dumpHeaders h]
+  | retry h => simp [encodeResp, decodeResp, getVar, RespAct.sanitized, parse_dumpHeaders h]
 
 /-! ### the response table and fold -/
 
@@ -469,78 +582,6 @@ theorem respFoldOk_foldResp (pre : List RespAct) (a : RespAct) :
     subst this
     rw [hout, respPrio_noop_right]; simp [RespAct.sim_refl]
 
-/-! ### header entries of a fold result come from its inputs -/
-
-theorem mem_merge (a b : Hdrs) (p : String × String) (h : p ∈ merge a b) : p ∈ a ∨ p ∈ b := by
-  unfold merge at h
-  rcases List.mem_append.mp h with h | h
-  · exact Or.inl (List.mem_filter.mp h).1
-  · exact Or.inr h
-
-theorem reqPrio_hdrs_mem (a b : ReqAct) (p : String × String) (h : p ∈ (reqPrio a b).hdrs) :
-    p ∈ a.hdrs ∨ p ∈ b.hdrs := by
-  cases a <;> cases b <;> simp only [reqPrio, ReqAct.hdrs] at h ⊢ <;>
-    first
-    | exact Or.inl h
-    | exact Or.inr h
-    | exact mem_merge _ _ _ h
-
-theorem respPrio_hdrs_mem (a b : RespAct) (p : String × String) (h : p ∈ (respPrio a b).hdrs) :
-    p ∈ a.hdrs ∨ p ∈ b.hdrs := by
-  cases a <;> cases b <;> simp only [respPrio, RespAct.hdrs] at h ⊢ <;>
-    first
-    | exact Or.inl h
-    | exact Or.inr h
-    | exact mem_merge _ _ _ h
-
-theorem foldl_reqPrio_hdrs_mem (acc : ReqAct) (as : List ReqAct) (p : String × String)
-    (h : p ∈ (as.foldl reqPrio acc).hdrs) : p ∈ acc.hdrs ∨ p ∈ as.flatMap (·.hdrs) := by
-  induction as generalizing acc with
-  | nil => exact Or.inl h
-  | cons x xs ih =>
-    rw [List.foldl_cons] at h
-    rw [List.flatMap_cons, List.mem_append]
-    rcases ih _ h with h | h
-    · rcases reqPrio_hdrs_mem acc x p h with h | h
-      · exact Or.inl h
-      · exact Or.inr (Or.inl h)
-    · exact Or.inr (Or.inr h)
-
-theorem foldl_respPrio_hdrs_mem (acc : RespAct) (as : List RespAct) (p : String × String)
-    (h : p ∈ (as.foldl respPrio acc).hdrs) : p ∈ acc.hdrs ∨ p ∈ as.flatMap (·.hdrs) := by
-  induction as generalizing acc with
-  | nil => exact Or.inl h
-  | cons x xs ih =>
-    rw [List.foldl_cons] at h
-    rw [List.flatMap_cons, List.mem_append]
-    rcases ih _ h with h | h
-    · rcases respPrio_hdrs_mem acc x p h with h | h
-      · exact Or.inl h
-      · exact Or.inr (Or.inl h)
-    · exact Or.inr (Or.inr h)
-
-theorem hdrsSafe_of_subset (h h' : Hdrs) (hs : hdrsSafe h = true) (hsub : ∀ p ∈ h', p ∈ h) :
-    hdrsSafe h' = true := by
-  unfold hdrsSafe at hs ⊢
-  rw [List.all_eq_true] at hs ⊢
-  intro p hp; exact hs p (hsub p hp)
-
-theorem foldReq_safe (as : List ReqAct) (hs : hdrsSafe (as.flatMap (·.hdrs)) = true) :
-    hdrsSafe (foldReq as).hdrs = true := by
-  apply hdrsSafe_of_subset _ _ hs
-  intro p hp
-  rcases foldl_reqPrio_hdrs_mem .noop as p hp with h | h
-  · cases h
-  · exact h
-
-theorem foldResp_safe (as : List RespAct) (hs : hdrsSafe (as.flatMap (·.hdrs)) = true) :
-    hdrsSafe (foldResp as).hdrs = true := by
-  apply hdrsSafe_of_subset _ _ hs
-  intro p hp
-  rcases foldl_respPrio_hdrs_mem .noop as p hp with h | h
-  · cases h
-  · exact h
-
 /-- The rule does not look at `HeadersToRemove`. -/
 theorem reqFoldOk_eraseRm (ins : List ReqAct) (out : ReqAct) (h : reqFoldOk ins out = true) :
     reqFoldOk ins out.eraseRm = true := by
@@ -554,119 +595,159 @@ theorem reqFoldOk_eraseRm (ins : List ReqAct) (out : ReqAct) (h : reqFoldOk ins 
     obtain ⟨_, _, _, _, he⟩ := firstEarly_some ins e hfe
     cases e <;> simp_all [ReqAct.sim, ReqAct.isEarly]
 
+/-! ### the rule holds of the SANITIZED fold for the sanitized inputs (what a fold site shows) -/
+
+theorem map_sanitized_hdrs (as : List ReqAct) :
+    (as.map (·.sanitized)).map (·.hdrs) = (as.map (·.hdrs)).map sanitizeHdrs := by
+  rw [List.map_map, List.map_map]
+  apply List.map_congr_left
+  intro a _; exact ReqAct.sanitized_hdrs a
+
+theorem map_sanitized_hdrs_resp (as : List RespAct) :
+    (as.map (·.sanitized)).map (·.hdrs) = (as.map (·.hdrs)).map sanitizeHdrs := by
+  rw [List.map_map, List.map_map]
+  apply List.map_congr_left
+  intro a _; exact RespAct.sanitized_hdrs a
+
+theorem all_isNoop_map_sanitized (as : List ReqAct) :
+    (as.map (·.sanitized)).all (·.isNoop) = as.all (·.isNoop) := by
+  rw [List.all_map]; congr 1; funext x; exact ReqAct.sanitized_isNoop x
+
+theorem reqFoldOk_sanitized (as : List ReqAct) :
+    reqFoldOk (as.map (·.sanitized)) (foldReq as).sanitized = true := by
+  cases hfe : firstEarly as with
+  | some e =>
+    obtain ⟨pre, post, rfl, hpre, he⟩ := firstEarly_some as e hfe
+    unfold reqFoldOk
+    rw [firstEarly_map_sanitized, hfe]
+    simp only [Option.map_some]
+    have : foldReq (pre ++ e :: post) = e := foldl_reqPrio_first_early .noop pre post e rfl hpre he
+    rw [this]; exact ReqAct.sim_refl _
+  | none =>
+    have hno := firstEarly_none as hfe
+    apply reqFoldOk_of
+    · rw [firstEarly_map_sanitized, hfe]; rfl
+    · rw [ReqAct.sanitized_isEarly]
+      show (List.foldl reqPrio .noop as).isEarly = false
+      rw [foldl_reqPrio_isEarly]
+      have h0 : ReqAct.noop.isEarly = false := rfl
+      rw [h0, Bool.false_or, List.any_eq_false]
+      intro a ha; simp [hno a ha]
+    · rw [ReqAct.sanitized_isNoop, all_isNoop_map_sanitized]
+      have := foldl_reqPrio_isNoop .noop as
+      have h1 : ReqAct.noop.isNoop = true := rfl
+      rw [h1, Bool.true_and] at this
+      exact this
+    · intro k
+      rw [ReqAct.sanitized_hdrs, lookup_sanitize, map_sanitized_hdrs, lastWriter_sanitize]
+      have : (foldReq as).hdrs.lookup k = lastWriter k (as.map (·.hdrs)) := by
+        show List.lookup k (List.foldl reqPrio .noop as).hdrs = _
+        rw [foldl_reqPrio_hdrs .noop as rfl hno k]; exact lastWriter_nil_cons k _
+      rw [this]
+
+/-- The response rule from its ingredients. -/
+theorem respRuleOk_of (ins : List RespAct) (out : RespAct)
+    (hN : out.isNoop = ins.all (·.isNoop))
+    (hMod : (∀ x ∈ ins, x.isRetry = false) →
+      out.isRetry = false ∧ ∀ k, out.hdrs.lookup k = lastWriter k (ins.map (·.hdrs)))
+    (hRet : (∀ x ∈ ins, x.isMod = false) →
+      out.isMod = false ∧ ∀ k, out.hdrs.lookup k = lastWriter k (ins.map (·.hdrs))) :
+    respRuleOk ins out = true := by
+  unfold respRuleOk
+  simp only [Bool.and_eq_true]
+  refine ⟨?_, ?_, ?_⟩
+  · rw [hN]; simp
+  · rw [nonNoop_all_isMod, nonNoop_isEmpty, ← hN]
+    cases hall : ins.all (!·.isRetry)
+    · simp
+    · have hall' : ∀ x ∈ ins, x.isRetry = false := by
+        intro x hx; have := List.all_eq_true.mp hall x hx; simpa using this
+      obtain ⟨hR, hH⟩ := hMod hall'
+      have hU := hdrsUnion_of_lookup _ _ hH
+      cases hn : out.isNoop
+      · rw [resp_kind3 _ hn hR, hU]; rfl
+      · rw [hU]; rfl
+  · rw [nonNoop_all_isRetry, nonNoop_isEmpty, ← hN]
+    cases hall : ins.all (!·.isMod)
+    · simp
+    · have hall' : ∀ x ∈ ins, x.isMod = false := by
+        intro x hx; have := List.all_eq_true.mp hall x hx; simpa using this
+      obtain ⟨hR, hH⟩ := hRet hall'
+      have hU := hdrsUnion_of_lookup _ _ hH
+      cases hn : out.isNoop
+      · rw [resp_kind3' _ hn hR, hU]; rfl
+      · rw [hU]; rfl
+
+theorem respRuleOk_sanitized (as : List RespAct) :
+    respRuleOk (as.map (·.sanitized)) (foldResp as).sanitized = true := by
+  apply respRuleOk_of
+  · rw [RespAct.sanitized_isNoop, List.all_map]
+    have : (foldResp as).isNoop = as.all (·.isNoop) := by
+      unfold foldResp; rw [foldl_respPrio_isNoop]; rfl
+    rw [this]; congr 1; funext x; exact (RespAct.sanitized_isNoop x).symm
+  · intro hall
+    have hall' : ∀ x ∈ as, x.isRetry = false := by
+      intro x hx
+      have := hall x.sanitized (List.mem_map_of_mem hx)
+      rwa [RespAct.sanitized_isRetry] at this
+    refine ⟨?_, ?_⟩
+    · rw [RespAct.sanitized_isRetry]; exact (foldl_respPrio_noRetry .noop as rfl hall' "").1
+    · intro k
+      rw [RespAct.sanitized_hdrs, lookup_sanitize, map_sanitized_hdrs_resp, lastWriter_sanitize]
+      have : (foldResp as).hdrs.lookup k = lastWriter k (as.map (·.hdrs)) := by
+        show List.lookup k (List.foldl respPrio .noop as).hdrs = _
+        rw [(foldl_respPrio_noRetry .noop as rfl hall' k).2]; exact lastWriter_nil_cons k _
+      rw [this]
+  · intro hall
+    have hall' : ∀ x ∈ as, x.isMod = false := by
+      intro x hx
+      have := hall x.sanitized (List.mem_map_of_mem hx)
+      rwa [RespAct.sanitized_isMod] at this
+    refine ⟨?_, ?_⟩
+    · rw [RespAct.sanitized_isMod]; exact (foldl_respPrio_noMod .noop as rfl hall' "").1
+    · intro k
+      rw [RespAct.sanitized_hdrs, lookup_sanitize, map_sanitized_hdrs_resp, lastWriter_sanitize]
+      have : (foldResp as).hdrs.lookup k = lastWriter k (as.map (·.hdrs)) := by
+        show List.lookup k (List.foldl respPrio .noop as).hdrs = _
+        rw [(foldl_respPrio_noMod .noop as rfl hall' k).2]; exact lastWriter_nil_cons k _
+      rw [this]
+
 /-! ### the object-level fold -/
-
-theorem lookup_set_eq (s : Store) (i : String) (x : Obj) : (Store.set s i x).lookup i = some x := by
-  induction s with
-  | nil => simp [Store.set]
-  | cons p rest ih =>
-    obtain ⟨m, y⟩ := p
-    unfold Store.set
-    by_cases h : (m == i) = true
-    · simp [h]
-    · have h' : (i == m) = false := by
-        cases hh : (i == m)
-        · rfl
-        · have : i = m := by simpa using hh
-          subst this; simp at h
-      have h0 : (m == i) = false := by simpa using h
-      simp only [h0, Bool.false_eq_true, if_false, List.lookup_cons, h']
-      exact ih
-
-theorem lookup_set_ne (s : Store) (i m : String) (x : Obj) (hne : m ≠ i) :
-    (Store.set s i x).lookup m = s.lookup m := by
-  induction s with
-  | nil =>
-    have : (m == i) = false := by simpa using hne
-    simp [Store.set, List.lookup, this]
-  | cons p rest ih =>
-    obtain ⟨n, y⟩ := p
-    unfold Store.set
-    by_cases h : (n == i) = true
-    · have hni : n = i := by simpa using h
-      subst hni
-      have : (m == n) = false := by simpa using hne
-      simp [List.lookup_cons, this]
-    · have h0 : (n == i) = false := by simpa using h
-      simp only [h0, Bool.false_eq_true, if_false, List.lookup_cons]
-      rw [ih]
 
 theorem reqStepH_spec (s : Store) (acc : Acc) (n : String) (a o : ReqAct)
     (hacc : acc.get s = some a) (ho : (s.lookup n).bind Obj.asReq = some o) :
-    ∃ s1 acc1, reqStepH s acc n = some (s1, acc1) ∧ acc1.get s1 = some (reqPrio a o) ∧
-      (∀ m, (∀ i, acc = .ref i → m ≠ i) → s1.lookup m = s.lookup m) ∧
-      (∀ j, acc1 = .ref j → j = n ∨ acc = .ref j) := by
+    ∃ acc1, reqStepH s acc n = some acc1 ∧ acc1.get s = some (reqPrio a o) := by
   unfold reqStepH
   simp only [hacc, ho]
   cases a <;> cases o <;>
     first
-    | exact ⟨s, .ref n, rfl, by simpa [Acc.get, reqPrio] using ho, fun _ _ => rfl, fun j hj => Or.inl (by cases hj; rfl)⟩
-    | exact ⟨s, acc, rfl, by simpa [reqPrio] using hacc, fun _ _ => rfl, fun j hj => Or.inr hj⟩
-    | exact ⟨s, .val _, rfl, rfl, fun _ _ => rfl, fun j hj => by cases hj⟩
-    | skip
-  -- modReq × modHdr
-  rename_i h host path q b h2
-  cases acc with
-  | val v => exact ⟨s, .val _, rfl, rfl, fun _ _ => rfl, fun j hj => by cases hj⟩
-  | ref i =>
-    refine ⟨_, .ref i, rfl, ?_, ?_, fun j hj => Or.inr hj⟩
-    · simp [Acc.get, lookup_set_eq, Obj.asReq, reqPrio]
-    · intro m hm
-      exact lookup_set_ne s i m _ (hm i rfl)
+    | exact ⟨.ref n, rfl, by simpa [Acc.get, reqPrio] using ho⟩
+    | exact ⟨acc, rfl, by simpa [reqPrio] using hacc⟩
+    | exact ⟨.val _, rfl, rfl⟩
 
-theorem contains_false_not_mem_str (l : List String) (c : String) (h : l.contains c = false) : c ∉ l := by
-  intro hm
-  have : l.contains c = true := List.contains_iff_mem.mpr hm
-  rw [h] at this; cases this
-
-theorem namesDistinct_cons (n : String) (ns : List String) (h : namesDistinct (n :: ns) = true) :
-    n ∉ ns ∧ namesDistinct ns = true := by
-  simp only [namesDistinct, Bool.and_eq_true, Bool.not_eq_true'] at h
-  exact ⟨contains_false_not_mem_str _ _ h.1, h.2⟩
-
+/-- The fold on objects returns (a pointer to, or a fresh struct with) exactly the value of the
+    fold on values — for ANY list of names, repeated or not; the store is never written. -/
 theorem foldReqH_pure (ns : List String) : ∀ (s : Store) (acc : Acc) (a : ReqAct) (vals : List ReqAct),
-    acc.get s = some a → (∀ i, acc = .ref i → i ∉ ns) → namesDistinct ns = true →
+    acc.get s = some a →
     ns.map (fun n => (s.lookup n).bind Obj.asReq) = vals.map some →
-    ∃ s' acc', foldReqH s acc ns = some (s', acc') ∧ acc'.get s' = some (vals.foldl reqPrio a) ∧
-      (∀ m, m ∉ ns → (∀ i, acc = .ref i → m ≠ i) → s'.lookup m = s.lookup m) := by
+    ∃ acc', foldReqH s acc ns = some acc' ∧ acc'.get s = some (vals.foldl reqPrio a) := by
   induction ns with
   | nil =>
-    intro s acc a vals hacc _ _ hv
+    intro s acc a vals hacc hv
     cases vals with
-    | nil => exact ⟨s, acc, rfl, hacc, fun _ _ _ => rfl⟩
+    | nil => exact ⟨acc, rfl, hacc⟩
     | cons _ _ => simp at hv
   | cons n ns ih =>
-    intro s acc a vals hacc hfresh hd hv
+    intro s acc a vals hacc hv
     cases vals with
     | nil => simp at hv
     | cons o vals =>
       simp only [List.map_cons, List.cons.injEq] at hv
       obtain ⟨ho, hv⟩ := hv
-      obtain ⟨hn, hd'⟩ := namesDistinct_cons n ns hd
-      obtain ⟨s1, acc1, hstep, hget1, hframe1, href1⟩ := reqStepH_spec s acc n a o hacc ho
-      have hfresh1 : ∀ j, acc1 = .ref j → j ∉ ns := by
-        intro j hj
-        rcases href1 j hj with rfl | h
-        · exact hn
-        · exact fun hm => hfresh j h (List.mem_cons_of_mem _ hm)
-      have hv1 : ns.map (fun m => (s1.lookup m).bind Obj.asReq) = vals.map some := by
-        rw [← hv]
-        apply List.map_congr_left
-        intro m hm
-        rw [hframe1 m (fun i hi e => hfresh i hi (e ▸ List.mem_cons_of_mem _ hm))]
-      obtain ⟨s', acc', hfold, hget', hframe'⟩ := ih s1 acc1 (reqPrio a o) vals hget1 hfresh1 hd' hv1
-      refine ⟨s', acc', ?_, ?_, ?_⟩
-      · simp only [foldReqH, hstep]; exact hfold
-      · simpa using hget'
-      · intro m hm hmi
-        have hmn : m ≠ n := fun e => hm (e ▸ List.mem_cons_self ..)
-        have hmns : m ∉ ns := fun e => hm (List.mem_cons_of_mem _ e)
-        rw [hframe' m hmns ?_, hframe1 m hmi]
-        intro j hj
-        rcases href1 j hj with rfl | h
-        · exact hmn
-        · exact hmi j h
-
+      obtain ⟨acc1, hstep, hget1⟩ := reqStepH_spec s acc n a o hacc ho
+      obtain ⟨acc', hfold, hget'⟩ := ih s acc1 (reqPrio a o) vals hget1 hv
+      refine ⟨acc', ?_, by simpa using hget'⟩
+      simp only [foldReqH, hstep]; exact hfold
 
 /-! ### the observable history of a model run (what `lvdriver_c07 run` prints, step by step) -/
 
